@@ -48,10 +48,14 @@ class EvolvingAnsatzMinimumEigensolverResultJSONEncoder(JSONEncoder):
             }
 
         if isinstance(o, QuasiDistribution):
+            # The keys are stored as integers, which cannot tell how many bits were measured (leading zeros).
+            # Therefore, the length of the measured bitstrings is stored as well.
+            bitstrings = list(o.binary_probabilities().keys())
             return {
                 "quasidistribution_data": [[key, value] for key, value in o.items()],
                 "quasidistribution_shots": o.shots,
                 "quasidistribution_stdev_bound": o.stddev_upper_bound,
+                "quasidistribution_num_bits": len(bitstrings[0]) if len(bitstrings) > 0 else None,
             }
 
         if isinstance(o, QuantumCircuit):
@@ -147,6 +151,7 @@ class EvolvingAnsatzMinimumEigensolverResultJSONDecoder(JSONDecoder):
             "quasidistribution_data",
             "quasidistribution_shots",
             "quasidistribution_stdev_bound",
+            "quasidistribution_num_bits",
             "qiskit_quantum_circuit",
             "base_population_evaluation_population",
             "base_population_evaluation_expectation_values",
@@ -174,6 +179,7 @@ class EvolvingAnsatzMinimumEigensolverResultJSONDecoder(JSONDecoder):
             "quasidistribution_data" in object_dict
             or "quasidistribution_shots" in object_dict
             or "quasidistribution_stdev_bound" in object_dict
+            or "quasidistribution_num_bits" in object_dict
         ):
             return self.parse_quasidistribution(object_dict)
 
@@ -215,8 +221,13 @@ class EvolvingAnsatzMinimumEigensolverResultJSONDecoder(JSONDecoder):
 
     @staticmethod
     def parse_quasidistribution(object_dict):
+        data = dict(object_dict["quasidistribution_data"])
+        # Restore the length of the measured bitstrings, if it has been stored.
+        num_bits = object_dict.get("quasidistribution_num_bits")
+        if num_bits is not None:
+            data = {format(key, f"0{num_bits}b"): value for key, value in data.items()}
         return QuasiDistribution(
-            data=dict(object_dict["quasidistribution_data"]),
+            data=data,
             shots=object_dict["quasidistribution_shots"],
             stddev_upper_bound=object_dict["quasidistribution_stdev_bound"],
         )
